@@ -1,7 +1,7 @@
 """C09 LAS files parse to their content, independent of layout (structural clauses only)."""
 import ast
 
-from .. import cfg as cfgmod, rx, symx
+from .. import cfg as cfgmod, defuse, rx, symx
 from ..loader import RegexVal, walk_no_nested
 from ..norm import nf, show, attr_chain
 from . import common
@@ -196,6 +196,17 @@ def check_choke(rep, ix):
     rep.ob('R-C09-CHOKE', f'{M}:generate_lines', 'a line sent back is yielded again with its own line number', ok, found=str(srcs), node=g, module=m)
     eofs = [n for n in walk_no_nested(g) if isinstance(n, ast.If) and show(nf(n.test)) in (common.nfs('len(line) == 0'), common.nfs('not line'))]
     rep.ob('R-C09-CHOKE', f'{M}:generate_lines', 'stops only at end of file', len(eofs) == 1 and isinstance(eofs[0].body[0], ast.Break), node=g, module=m)
+    # ... and what is tested for end of file (and for blank / comment) is the line as read: '' only at end of file, '\n' for a blank line
+    gg = cfgmod.CFG(g)
+    reads = [s_ for s_ in gg.stmts() if isinstance(s_, ast.Assign) and _n(s_.value).endswith('.readline()') and isinstance(s_.targets[0], ast.Name)]
+    if len(reads) == 1 and eofs:
+        nm = reads[0].targets[0].id
+        others = [s_ for s_ in gg.stmts() if s_ is not reads[0] and isinstance(s_, (ast.Assign, ast.AugAssign)) and
+                  any(isinstance(t, ast.Name) and t.id == nm for tt in (s_.targets if isinstance(s_, ast.Assign) else [s_.target]) for t in ast.walk(tt))]
+        tests = eofs + ifs
+        bad = [o for o in others for t in tests if gg.path_avoiding(o, t, {reads[0]}, skip_exc=True)]
+        rep.ob('R-C09-CHOKE', f'{M}:generate_lines', 'the end-of-file and blank-line tests see the line exactly as readline() gave it', not bad,
+               found='; '.join(_n(b)[:60] for b in bad), required=f'no assignment to `{nm}` between the read and the tests', node=bad[0] if bad else g, module=m)
     init = ix.get_func(M, 'LASRead.__init__')
     ok = any(_n(c) == f'self._process_file(generate_lines({init.args.args[1].arg}))' for c in common.calls_in(init))
     rep.ob('R-C09-CHOKE', f'{M}:LASRead.__init__', 'the whole file goes through the line generator', ok, node=init, module=m)
@@ -241,6 +252,24 @@ def check_fields(rep, ix):
             typed = list(range(len(decl)))
         else:
             typed = [i for i, a in enumerate(c.args) if isinstance(a, ast.Call) and _n(a.func) == 'string_to_value']
+    # nothing stands between the typed value and the section line: a value looked up in a table keyed by equality comes back
+    # as the first equal value ever seen (2 == 2.0 == True-like keys collide), which depends on what was read before
+    direct = False
+    if len(rets) == 1 and isinstance(rets[0].value, ast.Call) and _n(rets[0].value.func) == 'SectLine':
+        c = rets[0].value
+        if len(c.args) == 1 and isinstance(c.args[0], ast.Starred):
+            v = defuse.inline_locals(f, c.args[0].value, depth=2)
+            direct = isinstance(v, ast.ListComp) and isinstance(v.elt, ast.Call) and _n(v.elt.func) == 'string_to_value' and len(v.elt.args) == 1 \
+                and _n(v.elt.args[0]) in {_n(t) for gen in v.generators for t in ast.walk(gen.target) if isinstance(t, ast.Name)}
+        else:
+            def plain(a):
+                a = defuse.inline_locals(f, a, depth=2)
+                if isinstance(a, ast.Call) and _n(a.func) == 'string_to_value':
+                    return True
+                return all(not isinstance(x, ast.Call) or (isinstance(x.func, ast.Attribute) and x.func.attr in ('group', 'groups', 'strip', 'rstrip', 'lstrip')) for x in ast.walk(a))
+            direct = bool(c.args) and not c.keywords and all(plain(a) for a in c.args)
+    rep.ob('R-C09-FIELDS', site, 'each field of the section line is the matched text or its typed value itself', direct,
+           found=_n(rets[0].value)[:120] if rets else 'no return', required='SectLine(*[string_to_value(g) for g in ...]) or explicit fields', node=f, module=m)
     stv = ix.get_func(M, 'string_to_value')
     kinds = sorted({_n(r.value) for r in common.returns_of(stv) if r.value is not None})
     nonstr = any(k.startswith('int(') or k.startswith('float(') or k in ('True', 'False') for k in kinds)
